@@ -325,18 +325,32 @@ func ruleSingleWrite(c *core.Ctx, a *epAnchors) {
 
 	// endPoint.Send forwards
 	sk := "bus/net.endPoint.Send"
-	calls := core.Calls(a.send)
-	good := len(calls) == 1 && core.IsCallTo(calls[0], fn) && isFieldOf(calls[0].Common().Args[1], a.stream)
-	if good {
-		if _, isCall := calls[0].(*ssa.Call); !isCall {
-			good = false
+	// … directly, or through one private method of the end point that is itself exactly that
+	// forward (`return e.write(&m)` with `write` being `return m.Write(e.stream)`)
+	var forwards func(f *ssa.Function, depth int) bool
+	forwards = func(f *ssa.Function, depth int) bool {
+		calls := core.Calls(f)
+		if len(calls) != 1 {
+			return false
 		}
-		for _, r := range core.Returns(a.send) {
+		if _, isCall := calls[0].(*ssa.Call); !isCall {
+			return false
+		}
+		for _, r := range core.Returns(f) {
+			if len(r.Results) == 0 {
+				return false
+			}
 			if cr, _ := core.CallResult(core.RetVal(r, 0)); cr == nil || ssa.CallInstruction(cr) != calls[0] {
-				good = false
+				return false
 			}
 		}
+		if core.IsCallTo(calls[0], fn) && isFieldOf(calls[0].Common().Args[1], a.stream) {
+			return true
+		}
+		g := calls[0].Common().StaticCallee()
+		return depth < 2 && g != nil && g != f && isPrivateHelper(c, g) && g.Pkg == f.Pkg && forwards(g, depth+1)
 	}
+	good := forwards(a.send, 0)
 	c.Check(good, rule, sk, a.send.Pos(), "Send is exactly `return m.Write(e.stream)`", "endPoint.Send does more than forwarding the message to Message.Write(e.stream) and returning its error")
 }
 
@@ -375,7 +389,7 @@ func ruleStreamOwner(c *core.Ctx, a *epAnchors) {
 				switch {
 				case cc.IsInvoke() && (cc.Method.Name() == "Close" || cc.Method.Name() == "String" || cc.Method.Name() == "Context"):
 					c.Pass(rule, key, u.Pos(), cc.Method.Name()+"()")
-				case core.IsCallTo(call, msgWrite) && sendUnit[fn]:
+				case core.IsCallTo(call, msgWrite) && (sendUnit[fn] || (isPrivateHelper(c, fn) && streamWriters(c, a)[fn])):
 					nWrite++
 					c.Check(nWrite == 1, rule, key, u.Pos(), "Message.Write from Send", "Send writes to the stream at more than one place")
 				case core.IsCallTo(call, msgRead) && processUnit[fn]:
@@ -512,4 +526,38 @@ func ruleProcessOrder(c *core.Ctx, a *epAnchors) {
 	// the message dispatched is the one just read
 	same := rs.isMsg(disp.Common().Args[1])
 	c.Check(same, rule, "bus/net.endPoint.process/same-message", disp.Pos(), "dispatch receives the message just read", "dispatch does not receive the message object that was just read")
+}
+
+// streamWriters: the functions through which a message reaches the stream — Send, and a
+// private method of the end point that is exactly `return m.Write(e.stream)` (Send and the
+// other senders of the package then go through it).
+func streamWriters(c *core.Ctx, a *epAnchors) map[*ssa.Function]bool {
+	out := map[*ssa.Function]bool{}
+	if a.send != nil {
+		out[a.send] = true
+	}
+	msgWrite := c.Func("bus/net", "Message", "Write")
+	for _, f := range srcFuncsOfPkg(c, "bus/net") {
+		if f.Parent() != nil || !isPrivateHelper(c, f) {
+			continue
+		}
+		calls := core.Calls(f)
+		if len(calls) != 1 || !core.IsCallTo(calls[0], msgWrite) || len(calls[0].Common().Args) < 2 || !isFieldOf(calls[0].Common().Args[1], a.stream) {
+			continue
+		}
+		ok := true
+		for _, r := range core.Returns(f) {
+			if len(r.Results) != 1 {
+				ok = false
+				continue
+			}
+			if cr, _ := core.CallResult(core.RetVal(r, 0)); cr == nil || ssa.CallInstruction(cr) != calls[0] {
+				ok = false
+			}
+		}
+		if ok {
+			out[f] = true
+		}
+	}
+	return out
 }
